@@ -66,6 +66,8 @@ def doc_text(v):
 def show_default(it, state, v):
     if isinstance(v, T.Ref):
         o = it.obj(state, v)
+        if o.shared or v.id not in state.store:
+            return '<one object shared by all instances: %s>' % o.origin
         if o.kind == 'dict' and not o.more and not o.items:
             return {}
         if o.kind == 'list' and not o.more and not o.items:
@@ -310,6 +312,19 @@ def run(chk, ctx):
                        'effective default = %r' % (got,),
                        detail={'expected': wantd}, site=site)
         chk.floor('C14.P', 14 * 2, 'property facts')
+    # the catalogue stays what the literals say: nobody writes it at run time
+    from .c16 import syntactic_writes
+    writes = []
+    for fi in prog.functions.values():
+        for site_, what in syntactic_writes(prog, fi):
+            if 'commands.' in what or 'INDEX_MAPPING' in what or \
+                    'class table' in what or 'class attribute' in what:
+                writes.append('%s at %s (%s)' % (what, site_, fi.short))
+    chk.rule('C14.W', 'the catalogue (INDEX_MAPPING, class tables) is not '
+             'modified by any function at run time')
+    chk.ob('C14.W', 'run-time writers of the catalogue', not writes,
+           'no function stores into INDEX_MAPPING or a class table'
+           if not writes else '; '.join(writes[:3]))
     chk.units['classes'] = len(list(spec.methods())) + 1 + len(spec.classes)
     chk.assume('the transcribed specification table is correct (it was '
                'written from the AMQP 0-9-1 / RabbitMQ documents, not from '
